@@ -22,6 +22,10 @@ def main (_args : List String) : IO Unit := do
       stdout.putStrLn s!"item {id}"
       for o in runShape l do stdout.putStrLn o
       stdout.putStrLn "end"
+    | "matchcase" :: id :: _ =>
+      stdout.putStrLn s!"item {id}"
+      stdout.putStrLn (runMatchCase toks)
+      stdout.putStrLn "end"
     | "outcase" :: id :: _ =>
       stdout.putStrLn s!"item {id}"
       stdout.putStrLn (runOutCase toks)
